@@ -147,3 +147,151 @@ def check_disp8(db, rep, rule):
     if n < 4:
         raise AnalysisBroken("only %d one-byte displacement sites found in orc/orcx86.c" % n)
     return n
+
+
+# ModRM helper -> (index of the r/m (or SIB base) argument, index of the reg-field argument)
+MODRM_ROLES = {"orc_x86_emit_modrm_reg": (1, 2), "orc_x86_emit_modrm_memoffset": (2, 3), "orc_x86_emit_modrm_memindex2": (2, 5)}
+
+
+def check_rex_roles(db, rep, rule, tnames=None):
+    """For every instruction type: the operand the ModRM emitter puts in the r/m (base) field is the one the opcode emitter hands
+    to REX.B, and the operand in the reg field is the one handed to REX.R.  (output_opcode (p, opc, size, src, dest, ..) emits
+    orc_x86_emit_rex (p, size, dest, 0, src): `src` -> REX.B, `dest` -> REX.R.)"""
+    tu = db.tu("orcx86insn")
+    if tnames is None:
+        te = [e for e in tu.enumdecls if any(i[0] == "ORC_X86_INSN_TYPE_MMXM_MMX" for i in e["items"])]
+        tnames = {v: k[len("ORC_X86_INSN_TYPE_"):] for k, v in te[0]["items"]}
+    oo, om = tu.fn.get("orc_x86_insn_output_opcode"), tu.fn.get("orc_x86_insn_output_modrm")
+    helper = tu.fn.get("output_opcode")
+    if oo is None or om is None or helper is None:
+        raise AnalysisBroken("x86 byte emitters not found")
+    # confirm the REX wiring of output_opcode itself
+    pn = [p["name"] for p in helper.params]
+    rex = [c for c in helper.calls("orc_x86_emit_rex")]
+    if len(rex) != 1:
+        raise AnalysisBroken("output_opcode: expected exactly one orc_x86_emit_rex call")
+    ra = [unparse(strip_casts(a)) for a in rex[0].args()]
+    # rex (p, size, reg1 -> REX.R, reg2 -> REX.X, reg3 -> REX.B)
+    if ra[2] not in pn or ra[4] not in pn:
+        raise AnalysisBroken("output_opcode: REX operands are not its parameters (%s)" % ra)
+    R_idx, B_idx = pn.index(ra[2]), pn.index(ra[4])
+    opc = {}
+    for sw in type_switches(oo):
+        for labels, stmts in switch_arms(sw):
+            calls = [c for st in stmts for c in st.walk() if c.k == "CallExpr" and c.name == "output_opcode"]
+            for t in labels:
+                if t != "default" and calls:
+                    opc[t] = calls
+    refused = set()
+    for sw in type_switches(oo):
+        for labels, stmts in switch_arms(sw):
+            if any(x.mac and "ORC_COMPILER_ERROR" in x.mac for st in stmts for x in st.walk()):
+                refused |= {l for l in labels if l != "default"}
+    n = 0
+    for sw in type_switches(om):
+        for labels, stmts in switch_arms(sw):
+            mcalls = [c for st in stmts for c in st.walk() if c.k == "CallExpr" and c.name in MODRM_ROLES]
+            if not mcalls:
+                continue
+            for t in sorted(l for l in labels if l != "default"):
+                oc = opc.get(t)
+                if not oc and t in refused:
+                    continue                # the legacy emitter raises a compile error for this (VEX-only) type: its ModRM arm is never reached
+                if not oc:
+                    rep.violation(rule, "orc/orcx86insn.c::orc_x86_insn_output_opcode", "%s:no-rex" % tnames.get(t, t),
+                                  "%s instructions have a ModRM byte but the opcode emitter never calls output_opcode for them: no REX prefix can be produced" % tnames.get(t, t))
+                    n += 1
+                    continue
+                for m in mcalls:
+                    rm_i, reg_i = MODRM_ROLES[m.name]
+                    rm = unparse(strip_casts(m.args()[rm_i]))
+                    rg = unparse(strip_casts(m.args()[reg_i]))
+                    for o in oc:
+                        B = unparse(strip_casts(o.args()[B_idx]))
+                        R = unparse(strip_casts(o.args()[R_idx]))
+                        ok_b = rm == B
+                        ok_r = rg == R or "code2" in rg          # /digit opcode extension: not a register
+                        n += 1
+                        if not (ok_b and ok_r):
+                            # the mismatch only matters if a register >= 8 can reach that operand
+                            hi = high_register_sites(db, t, [x for x, good in ((rm, ok_b), (rg, ok_r)) if not good])
+                            if not hi:
+                                rep.ok(rule, "orc/orcx86insn.c::orc_x86_insn_output_modrm", "%s:%s" % (tnames.get(t, t), m.name.replace("orc_x86_emit_modrm_", "")),
+                                       "REX roles differ (r/m %s vs REX.B %s) but every emission site of a %s row passes a fixed register below 8: latent, no program is affected" % (rm, B, tnames.get(t, t)))
+                                continue
+                            rep.violation(rule, "orc/orcx86insn.c::orc_x86_insn_output_modrm", "%s:%s" % (tnames.get(t, t), m.name.replace("orc_x86_emit_modrm_", "")),
+                                          "%s instructions: ModRM puts %s in r/m and %s in reg, but the REX prefix is built from %s (REX.B) and %s (REX.R), and an allocated "
+                                          "register (possibly r8..r15) reaches that operand at %s" % (tnames.get(t, t), rm, rg, B, R, "; ".join(hi[:3])), line=m.line)
+                            continue
+                        rep.check(ok_b and ok_r, rule, "orc/orcx86insn.c::orc_x86_insn_output_modrm", "%s:%s" % (tnames.get(t, t), m.name.replace("orc_x86_emit_modrm_", "")),
+                                  "r/m operand %s -> REX.B, reg operand %s -> REX.R" % (rm, rg),
+                                  "%s instructions: ModRM puts %s in r/m and %s in reg, but the REX prefix is built from %s (REX.B) and %s (REX.R): "
+                                  "for r8..r15 / xmm8..15 the encoded register differs from the one the listing names" % (tnames.get(t, t), rm, rg, B, R), line=m.line)
+    if n < 20:
+        raise AnalysisBroken("only %d ModRM/REX role pairs found" % n)
+    return n
+
+
+FIXED_LOW = ("exec_reg", "gp_tmpreg")       # set once in orc_x86_compiler_init to registers below 8 (checked in high_register_sites)
+
+
+def _low_only(db, f, e, depth=0):
+    """True if expression e (a register argument inside function f) can only be a register number below 8."""
+    from facts import access_path
+    e = strip_casts(e)
+    if e is None:
+        return False
+    if e.v is not None:
+        return e.v < 40 or e.v == -1            # X86_EAX is 32; r8 is 40; mmx/sse registers are handled by their own types
+    if e.k == "MemberExpr" and e.name in FIXED_LOW:
+        return True
+    if e.k == "DeclRefExpr" and e.get("dk") == "param" and depth < 3:
+        idx = [p["name"] for p in f.params].index(e.name)
+        callers = db.callers().get(f.name, [])
+        if not callers:
+            return False
+        return all(_low_only(db, g, c.args()[idx], depth + 1) for g, c in callers if len(c.args()) > idx)
+    return False
+
+
+def high_register_sites(db, t, operand_exprs):
+    """emission sites of rows of instruction type t at which the xinsn field(s) named in operand_exprs may hold r8..r15."""
+    from facts import init_rows, access_path
+    tu = db.tu("orcx86insn")
+    rows = init_rows(tu.global_("orc_x86_opcodes"))
+    idxs = {i for i, r in enumerate(rows) if isinstance(r, dict) and r.get("type") == t}
+    if not idxs:
+        return []
+    # fixed registers really are low
+    ci = db.func("orc_x86_compiler_init", "orcprogram-x86")
+    for n in ci.walk():
+        if n.k == "BinaryOperator" and n.op == "=" and strip_casts(n.c[0]).k == "MemberExpr" and strip_casts(n.c[0]).name in FIXED_LOW:
+            v = strip_casts(n.c[1]).v
+            if v is None or v >= 40:
+                return ["%s may be a high register (orc_x86_compiler_init)" % strip_casts(n.c[0]).name]
+    out = []
+    fields = {x.replace("xinsn->", "") for x in operand_exprs}
+    for g in tu.main_functions():
+        if not g.name.startswith("orc_x86_emit_cpuinsn_"):
+            continue
+        pn = [p["name"] for p in g.params]
+        # which parameter is stored into the field
+        pidx = []
+        for n in g.walk():
+            if n.k == "BinaryOperator" and n.op == "=":
+                l = unparse(strip_casts(n.c[0])).replace("xinsn->", "")
+                r = strip_casts(n.c[1])
+                if l in fields and r is not None and r.k == "DeclRefExpr" and r.name in pn:
+                    pidx.append(pn.index(r.name))
+        if not pidx or "index" not in pn:
+            continue
+        oi = pn.index("index")
+        for f2, c in db.callers().get(g.name, []):
+            a = c.args()
+            if len(a) <= oi or a[oi].v not in idxs:
+                # the opcode may itself be a parameter of a wrapper: not followed (wrappers are macros in this tree)
+                continue
+            for k in pidx:
+                if not _low_only(db, f2, a[k]):
+                    out.append("%s:%s (%s)" % (f2.relfile, c.line, unparse(a[k])[:40]))
+    return out
